@@ -110,6 +110,17 @@ theorem C03_neighbours_inside_image (shape : List Nat) (bshape : List Nat) (bc :
         y = ravelI shape (addPos (unravelI shape x) k) :=
   mem_neighbours_constant shape _ x y (by intro k hk; rw [offsets_length bshape bc k hk, hnd])
 
+/-- **F9 for C03 (pixels ↔ positions).** C-order flat indices and positions inside the image are in bijection:
+`unravelI` of an in-range index is inside the image and ravels back; a position inside the image ravels to an
+in-range index and unravels back. So in `Linked` the neighbour `y = ravelI (pos x + k)` of an in-image position
+is automatically a pixel of the image when the image fills its shape, and distinct positions are distinct pixels. -/
+theorem C03_index_roundtrip (shape : List Nat) :
+    (∀ i, i < shapeSize shape →
+      inside shape (unravelI shape i) = true ∧ ravelI shape (unravelI shape i) = i) ∧
+    (∀ p : List Int, p.length = shape.length → inside shape p = true →
+      ravelI shape p < shapeSize shape ∧ unravelI shape (ravelI shape p) = p) :=
+  ⟨unravel_inside_ravel shape, ravel_inside_unravel shape⟩
+
 /-- **C03-T4 (negation on the pinned code).** With `ExtendNearest` (the pinned tree) the image `[[1,1]]`
 with the element `{(-1,-1)}` gets ONE component: the out-of-image neighbour of pixel (0,1) is clamped onto
 pixel (0,0). With `ExtendConstant` (after the fix) it gets two, as the specification says. -/
